@@ -211,6 +211,10 @@ class FakeShutil:
     copyfile = copy
     copy2 = copy
 
+    def __getattr__(self, name):
+        import shutil
+        return getattr(shutil, name)
+
 
 class FakeOsPath:
     def __init__(self, fs):
